@@ -240,3 +240,19 @@ def run_apalache(d, module, inv, length=1, timeout=600):
     shutil.rmtree(os.path.join(d, "_apalache-out"), ignore_errors=True)
     ok = "The outcome is: NoError" in p.stdout
     return ok, time.time() - t, p.stdout[-1500:]
+
+
+def run_tlaps(d, module, timeout=600):
+    """Checks the TLAPS proofs of `module`; returns (proved, obligations, seconds, tail)."""
+    os.makedirs(d, exist_ok=True)
+    copy_specs(d)
+    shutil.rmtree(os.path.join(d, ".tlacache"), ignore_errors=True)
+    t = time.time()
+    try:
+        p = subprocess.run(["tlapm", "--threads", "8", module + ".tla"], cwd=d, stdout=subprocess.PIPE,
+                           stderr=subprocess.STDOUT, text=True, timeout=timeout)
+    except subprocess.TimeoutExpired:
+        raise ToolError("tlapm timeout on %s" % module)
+    m = re.search(r"All (\d+) obligations? proved", p.stdout)
+    shutil.rmtree(os.path.join(d, ".tlacache"), ignore_errors=True)
+    return (m is not None), (int(m.group(1)) if m else 0), time.time() - t, p.stdout[-1500:]
